@@ -379,6 +379,69 @@ fn lowrank_exactness_shifted(d: usize, k: usize, cond: f64, shift: f64, p: &mut 
     Some(worst)
 }
 
+/// small estimation windows (3 <= n draws, 2n <= d): the low-rank estimate is built inside the
+/// span of the window's draws and gradients; on a Gaussian whose covariance is a rank-k update of
+/// a diagonal one the draws of the window itself must be whitened (gradient = -position)
+fn lowrank_small_window(d: usize, n: usize, k: usize, cond: f64, p: &mut Partial) {
+    let dsc: Vec<f64> = (0..d).map(|i| cond.powf(0.25 * i as f64 / (d.max(2) - 1) as f64) * 0.6).collect();
+    let u = crate::c02::orthonormal(d, k);
+    let lam: Vec<f64> = (0..k).map(|j| if j % 2 == 0 { 9.0 + 4.0 * j as f64 } else { 1.0 / (6.0 + j as f64) }).collect();
+    let mut inner = Dense::identity(d);
+    let mut inner_inv = Dense::identity(d);
+    for j in 0..k {
+        for a in 0..d {
+            for b in 0..d {
+                inner.a[a * d + b] += u[j][a] * (lam[j] - 1.0) * u[j][b];
+                inner_inv.a[a * d + b] += u[j][a] * (1.0 / lam[j] - 1.0) * u[j][b];
+            }
+        }
+    }
+    let dinv = Dense::diag(&dsc.iter().map(|x| 1.0 / x).collect::<Vec<_>>());
+    let prec = dinv.mul(&inner_inv).mul(&dinv);
+    let mu: Vec<f64> = (0..d).map(|i| 0.4 * i as f64 - 0.7).collect();
+    let pts: Vec<Vec<f64>> = (0..n)
+        .map(|m| {
+            let t: Vec<f64> = (0..d).map(|i| ((m as f64 + 1.0) * (0.71 + 0.23 * i as f64)).sin() * 1.4 + 0.07 * (m as f64 - 3.0)).collect();
+            let z = inner.mul_vec(&t);
+            (0..d).map(|i| mu[i] + dsc[i] * z[i]).collect()
+        })
+        .collect();
+    let grads: Vec<Vec<f64>> = pts.iter().map(|x| { let diff: Vec<f64> = (0..d).map(|i| x[i] - mu[i]).collect(); prec.mul_vec(&diff).iter().map(|v| -v).collect() }).collect();
+    p.evaluations += 1;
+    let key = format!("lowrank-small-window/d{d}/n{n}/rank{k}/cond{cond:e}");
+    let replay = json!({"d": d, "n": n, "rank": k, "cond": cond});
+    let settings = LowRankSettings { eigval_cutoff: 1.0, ..LowRankSettings::default() };
+    let Some((mut math, mut h, changed)) = lowrank_feed(d, &pts, &grads, settings) else {
+        p.violation(format!("C08/estimator-panicked/{key}"), String::new(), replay);
+        return;
+    };
+    if !changed {
+        p.count("small_windows_without_update", 1);
+        return;
+    }
+    let mut worst: f64 = 0.0;
+    for (x, g) in pts.iter().zip(&grads) {
+        let mut yv = math.new_array();
+        let mut gyv = math.new_array();
+        use nuts_rs::verif::Transformation;
+        if h.transformation_mut().inv_transform_normalize(&mut math, &col(x), &col(g), &mut yv, &mut gyv).is_err() {
+            continue;
+        }
+        let y = math.box_array(&yv);
+        let gy = math.box_array(&gyv);
+        let scale = y.iter().fold(1e-3f64, |m, v| m.max(v.abs()));
+        for i in 0..d {
+            worst = worst.max((y[i] + gy[i]).abs() / scale);
+        }
+    }
+    p.count(&format!("small_window_error_below_1e-{}", (-worst.max(1e-300).log10()).floor().max(0.0) as i64), 1);
+    if !(worst < 2e-3) {
+        p.violation(format!("C08/low-rank-small-window-does-not-whiten-its-own-draws/{key}"), format!("max |y + grad_y| / |y| = {worst:e} over the {n} draws of the window"), replay);
+        return;
+    }
+    p.class(format!("lowrank-small-window:n{n}:rank{k}"));
+}
+
 fn lowrank_degeneracy(p: &mut Partial, tier: Tier) {
     let alpha: Vec<f64> = tier.pick(vec![0.0, 1.0, -1.0, 1e300, f64::NAN, f64::INFINITY], ALPHA.to_vec());
     let n = alpha.len();
@@ -475,10 +538,23 @@ pub fn run(tier: Tier, _replay: Option<String>) -> i32 {
         DiagWindows(bool),
         DiagInit,
         LowRankExact(usize, usize, f64),
+        LowRankSmallWindow(usize, usize, usize, f64),
         LowRankWindows,
         Closed(Preset, usize),
     }
     let mut jobs = vec![];
+    for d in tier.pick(vec![6usize, 8, 12], vec![6usize, 8, 12, 20, 50]) {
+        for n in [3usize, 4, 6] {
+            if 2 * n > d {
+                continue;
+            }
+            for k in [1usize, 2] {
+                for cond in [1.0, 1e3] {
+                    jobs.push(Job::LowRankSmallWindow(d, n, k, cond));
+                }
+            }
+        }
+    }
     for d in 1..=tier.pick(6usize, 12) {
         for cond in [1.0, 1e3, 1e6, 1e12] {
             jobs.push(Job::DiagExact(d, cond));
@@ -508,6 +584,7 @@ pub fn run(tier: Tier, _replay: Option<String>) -> i32 {
             Job::DiagWindows(gb) => diag_degeneracy(&mut p, *gb, tier),
             Job::DiagInit => diag_init_degeneracy(&mut p),
             Job::LowRankExact(d, k, c) => lowrank_exactness(*d, *k, *c, &mut p),
+            Job::LowRankSmallWindow(d, n, k, c) => lowrank_small_window(*d, *n, *k, *c, &mut p),
             Job::LowRankWindows => lowrank_degeneracy(&mut p, tier),
             Job::Closed(preset, d) => closed_loop(
                 *preset,
@@ -520,7 +597,7 @@ pub fn run(tier: Tier, _replay: Option<String>) -> i32 {
         p.transitions = p.evaluations;
         p.validated = p.evaluations;
         if p.samples.is_empty() {
-            p.sample(json!({"job": match j { Job::DiagExact(d, c) => format!("diag exactness d={d} cond={c:e}"), Job::DiagWindows(g) => format!("diag windows grad_based={g}"), Job::DiagInit => "gradient initialiser".into(), Job::LowRankExact(d, k, c) => format!("low-rank exactness d={d} rank={k} cond={c:e}"), Job::LowRankWindows => "low-rank windows".into(), Job::Closed(pr, d) => format!("closed loop {pr:?} d={d}") }}));
+            p.sample(json!({"job": match j { Job::DiagExact(d, c) => format!("diag exactness d={d} cond={c:e}"), Job::DiagWindows(g) => format!("diag windows grad_based={g}"), Job::DiagInit => "gradient initialiser".into(), Job::LowRankExact(d, k, c) => format!("low-rank exactness d={d} rank={k} cond={c:e}"), Job::LowRankSmallWindow(d, n, k, c) => format!("low-rank small window d={d} n={n} rank={k} cond={c:e}"), Job::LowRankWindows => "low-rank windows".into(), Job::Closed(pr, d) => format!("closed loop {pr:?} d={d}") }}));
         }
         report.merge(p);
     });
